@@ -150,11 +150,15 @@ def scenario(r, big):
             steps.append(fsend(f, x, s, i, pl, lst))
         steps += send_all(pf) + send_all(pf2)
     elif kind == "relay":
+        # relayed under f's identity; f's own payload goes under another id / session (the same id would be the
+        # known finding C13-relay-foreign-payload, which has its own probe: every hit costs a re-execution)
         h = r.choice(hon)
         ph = P(h, r.choice(bodies))
         steps.append(bcast(h, s, i, ph))
-        steps += send_all(ph, [x for x in hon if x != h] + [h])      # relayed under f's identity
-        steps += collect(pf, hon) + send_all(pf, r.sample(hon, r.randint(1, len(hon))))
+        steps += send_all(ph, [x for x in hon if x != h] + [h])
+        ss, ii = r.choice([(s, i2), (s2, i), (s2, i2)])
+        steps += collect(pf, hon, ss=ss, ii=ii) + send_all(pf, r.sample(hon, r.randint(1, len(hon))), ss=ss, ii=ii)
+        steps += send_all(pf, r.sample(hon, 1))           # ... and is refused under the relayed id
         if r.random() < 0.5:
             steps += send_all(ph, r.sample(hon, 1))
     elif kind == "relay_slot":
@@ -263,20 +267,22 @@ def random_schedules(seed, num, big):
     return [scenario(r, big) for _ in range(num)]
 
 
-def relay_schedules():
-    """The documented observation: a faulty member relays an honest member's completely signed payload under its own
-    transport identity and then broadcasts its own payload for the same id."""
-    out = []
-    for n, f, h in ((3, 1, 2), (4, 3, 1), (5, 5, 2)):
-        hon = [m for m in range(1, n + 1) if m != f]
-        ph, pf = P(h, "x"), P(f, "y")
-        st = [{"ev": "Cfg", "n": n, "faulty": [f]}, bcast(h, "s1", "a", ph)]
-        r1 = [m for m in hon if m != h][0]
-        st.append(fsend(f, r1, "s1", "a", ph, exact(n, "s1", "a", ph)))
-        st += [fsig(f, m, "s1", "a", pf) for m in hon]
-        st += [fsend(f, m, "s1", "a", pf, exact(n, "s1", "a", pf)) for m in hon if m != r1]
-        out.append(st)
-    return out
+FINDING = "C13-relay-foreign-payload"
+DEV = [(FINDING, "BcastDKGTrace_relay.cfg")]
+
+
+def relay_probe():
+    """Known finding C13-relay-foreign-payload: faulty member 3 of 4 relays honest member 1's completely signed payload
+    for id "a" to member 2 under its own transport identity, then broadcasts its own payload for "a" to member 4:
+    members 2 and 4 have delivered different payloads for sender 3 and id "a"."""
+    n, f, h = 4, 3, 1
+    hon = [1, 2, 4]
+    ph, pf = P(h, "x"), P(f, "y")
+    st = [{"ev": "Cfg", "n": n, "faulty": [f]}, bcast(h, "s1", "a", ph)]
+    st.append(fsend(f, 2, "s1", "a", ph, exact(n, "s1", "a", ph)))
+    st += [fsig(f, m, "s1", "a", pf) for m in hon]
+    st.append(fsend(f, 4, "s1", "a", pf, exact(n, "s1", "a", pf)))
+    return st
 
 
 def mutators():
@@ -353,7 +359,7 @@ THOROUGH_MC = [("BcastDKGMC_equiv.cfg", 900), ("BcastDKGMC_full3.cfg", 900), ("B
 CONTROLS = [("BcastDKGMC_ctl_nodedup.cfg", "AgreementAccepted", "server.dedup removed"),
             ("BcastDKGMC_ctl_nosession.cfg", "AllSigned", "session hash not bound by newHashAny"),
             ("BcastDKGMC_ctl_noid.cfg", "AllSigned", "message id not bound by newHashAny"),
-            ("BcastDKGMC_ctl_raw.cfg", "AgreementRaw", "agreement over raw callback invocations (relay; documented observation)"),
+            ("BcastDKGMC_ctl_raw.cfg", "AgreementRaw", "deviation RelayForeignPayload not set aside (known finding %s)" % FINDING),
             ("BcastDKGMC_ctl_collusion.cfg", "AgreementAccepted", "two colluding faulty members (outside the statement)")]
 
 
@@ -378,9 +384,21 @@ def run(tier, seed):
     scheds, _ = vlib.gen_schedules(PID, FAMILY, "BcastDKGGen", "BcastDKGGen.cfg", num=2000 if thorough else 200,
                                    depth=120, seed=seed, timeout=900, limit=3000 if thorough else 300)
     rnd = random_schedules(seed, 6000 if thorough else 700, thorough)
-    # stage 2+3
-    vlib.conformance(o, FAMILY, "BcastDKGTrace", "BcastDKGTrace.cfg", "c13", scheds, tag="tlcgen")
-    vlib.conformance(o, FAMILY, "BcastDKGTrace", "BcastDKGTrace.cfg", "c13", rnd, tag="random")
+    # stage 2+3 (strict cfg = the statement as written; a reproduced rejection that the deviation cfg accepts is the
+    # known finding)
+    vlib.conformance(o, FAMILY, "BcastDKGTrace", "BcastDKGTrace.cfg", "c13", scheds, tag="tlcgen", dev_cfgs=DEV)
+    vlib.conformance(o, FAMILY, "BcastDKGTrace", "BcastDKGTrace.cfg", "c13", rnd, tag="random", dev_cfgs=DEV)
+    if o.violations:
+        return vlib.finish(o, "model_checking", RULE, ASSUMPTIONS)
+    # the dedicated probe of the known finding: executed on every run
+    before = len(o.known)
+    vlib.conformance(o, FAMILY, "BcastDKGTrace", "BcastDKGTrace.cfg", "c13", [relay_probe()], tag="probe", dev_cfgs=DEV)
+    if o.violations:
+        return vlib.finish(o, "model_checking", RULE, ASSUMPTIONS)
+    if len(o.known) == before:
+        log("[%s] note: the probe of known finding %s no longer reproduces (per-sender agreement held at the raw level)" % (PID, FINDING))
+        o.notes.append("probe of known finding %s did not reproduce" % FINDING)
+    o.known = [k for n, k in enumerate(o.known) if k[0] not in [x[0] for x in o.known[:n]]]      # one line per finding
     # coverage of the corners in the recorded traces (vacuity guard: the attacks must really have been mounted)
     tr = vlib.split_traces(vlib.read_ndjson(vlib.workdir(PID) + "/trace_random.ndjson"))
     cov = {"faulty_delivered_accepted": 0, "faulty_delivered_rejected_by_callback": 0, "faulty_refused": 0,
@@ -399,36 +417,28 @@ def run(tier, seed):
     o.extra["corner_counts"] = cov
     if min(cov.values()) == 0:
         raise vlib.Infra("vacuous coverage: %s" % cov)
-    # binding negative controls on recorded traces
-    vlib.binding_selftest(o, FAMILY, "BcastDKGTrace", "BcastDKGTrace.cfg", tr, mutators())
-    # the documented observation, on the real code: at the raw callback level a relayed foreign payload breaks
-    # per-sender agreement (accepted level: holds).  Recorded, never a violation.
-    rt, _, _ = vlib.run_schedules(PID, "c13", "TestExec", relay_schedules(), tag="relay")
-    v_acc = vlib.validate_traces(PID, FAMILY, "BcastDKGTrace", "BcastDKGTrace.cfg", rt)
-    v_raw = vlib.validate_traces(PID, FAMILY, "BcastDKGTrace", "BcastDKGTrace_raw.cfg", rt)
-    if v_acc.rejected:
-        raise vlib.Infra("relay scenario rejected at the accepted level: %s" % (v_acc.rejected,))
-    raw_fails = [x for x in v_raw.rejected if "AgreementRaw" in x[2]]
-    o.notes.append("observation (not a finding): relay of a foreign completely signed payload under the relayer's transport "
-                   "identity reaches the raw callback; agreement over raw invocations violated in %d of %d relay traces, "
-                   "agreement over payloads accepted by a callback with the in-tree origin check holds in all"
-                   % (len(raw_fails), len(rt)))
-    o.selftests.append({"control": "raw-level per-sender agreement fails on relay traces of the real code (AgreementRaw)",
-                        "rejected_as_required": len(raw_fails) == len(rt)})
-    return vlib.finish(o, "model_checking", RULE,
-                       ["signatures are unforgeable: faulty members only use honest signatures the real code handed to them "
+    # binding negative controls on recorded, accepted traces
+    head = tr[:150]
+    v = vlib.validate_traces(PID, FAMILY, "BcastDKGTrace", "BcastDKGTrace.cfg", head)
+    vlib.binding_selftest(o, FAMILY, "BcastDKGTrace", "BcastDKGTrace.cfg", [head[k] for k in v.accepted], mutators())
+    return vlib.finish(o, "model_checking", RULE, ASSUMPTIONS)
+
+
+ASSUMPTIONS = ["signatures are unforgeable: faulty members only use honest signatures the real code handed to them "
                         "(answers to their own requests, BCastMessages addressed to them); they hold all keys of faulty members",
                         "libp2p authenticates the transport peer id handed to the stream handlers (the executor passes it)",
-                        "A1: honest members only broadcast payloads carrying their own origin tag; agreement per sender is stated "
-                        "over payloads accepted by a callback performing the in-tree origin check (dkg/nodesigs.go, dkg/frostp2p.go)",
+                        "A1: honest members only broadcast payloads carrying their own origin tag",
+                        "per-sender agreement is checked as written (every callback invocation, per transport sender and id) with the "
+                        "known finding C13-relay-foreign-payload as the only named deviation, and additionally over payloads accepted "
+                        "by a callback performing the in-tree origin check (dkg/nodesigs.go, dkg/frostp2p.go), where it holds even with relays",
                         "one faulty member (two colluding ones break per-sender agreement: control cfg ctl_collusion)",
-                        "whether / in which order the honest client reaches its peers is not demanded (safety only)"])
+               "whether / in which order the honest client reaches its peers is not demanded (safety only)"]
 
 
 def replay(path):
     rp = json.load(open(path))
     o = vlib.Outcome(PID, "quick", 0)
-    vlib.conformance(o, FAMILY, rp["trace_module"], rp["trace_cfg"], rp["pkg"], [rp["schedule"]], tag="replay")
+    vlib.conformance(o, FAMILY, rp["trace_module"], rp["trace_cfg"], rp["pkg"], [rp["schedule"]], tag="replay", dev_cfgs=DEV)
     for p, t in o.violations:
         log("replay: " + t)
     return 1 if o.violations else 0
